@@ -74,7 +74,11 @@ func fixedFloor[T fixed.Dx](e *Evaluator, arguments string) (any, error) {
 	if err != nil {
 		return nil, err
 	}
-	return value.Trunc(), nil
+	floor := value.Trunc()
+	if value < 0 && value != floor {
+		floor = floor.Dec()
+	}
+	return floor, nil
 }
 
 func fixedIf[T fixed.Dx](e *Evaluator, arguments string) (any, error) {
